@@ -35,7 +35,7 @@ def run(ctx):
     ctx.extra["delivery_runs"] = summ["vectors"]
     ctx.extra["per_entry_family"] = summ["per_op"]
     # multi-call splits
-    consts = {"Tier": '"quick"', "StepBound": "200", "MaxBudget": "1", "Family": '"calls"'}
+    consts = {"Tier": '"quick"', "StepBound": "200", "MaxBudget": "1", "FeedLen": "1", "Family": '"calls"'}
     s2, vec, bfile = pscommon.run_mbt(ctx, "MC_PSProg", consts, "pscalls", base_heap="FreshHeap",
                                       invariants=("Emit", "Inv", "SplitTransparent"))
     pscommon.absorb(ctx, s2, "vh replay-ps (MC_PSProg calls)", "PSMachine!ScanTok eoc / SplitTransparent")
